@@ -233,6 +233,61 @@ func c18Values(r *core.Rand) []sharedValue {
 		ls := ls
 		add("EncryptedLeaseSet/forged-offline", &ls, func() string { return fmt.Sprint(ls.Verify() == nil) })
 	}
+	// a signature that does NOT verify over content whose options are not in key order (the failure
+	// path of a verifier, with a mapping only a parser yields): Verify fails and changes nothing
+	unsorted := rm.Mapping{Pairs: []rm.Pair{{K: []byte("zeta"), V: []byte("1")}, {K: []byte("alpha"), V: r.Bytes(5)}, {K: []byte("mid"), V: []byte{}}, {K: []byte("beta"), V: []byte("x")}}}
+	if m, _, _, err := rm.DecodeLeaseSet2(signedLeaseSet2(r, 7, false, 7).bytes); err == nil {
+		m.Options = unsorted
+		if ls, _, err := lease_set2.ReadLeaseSet2(m.Encode()); err == nil {
+			ls := ls
+			add("LeaseSet2/bad-signature-unsorted-options", &ls, func() string { return fmt.Sprint(ls.Verify() == nil) })
+		}
+	}
+	if m, _, _, err := rm.DecodeMetaLeaseSet(signedMeta(r, 7, false, 7).bytes); err == nil {
+		m.Options = unsorted
+		if ls, _, err := meta_leaseset.ReadMetaLeaseSet(m.Encode()); err == nil {
+			ls := ls
+			add("MetaLeaseSet/bad-signature-unsorted-options", &ls, func() string { return fmt.Sprint(ls.Verify() == nil) })
+		}
+	}
+	if m, _, _, err := rm.DecodeRouterInfo(signedRouterInfo(r, 7).bytes); err == nil {
+		m.Options = unsorted
+		if ri, _, err := router_info.ReadRouterInfo(m.Encode()); err == nil {
+			ri := ri
+			add("RouterInfo/bad-signature-unsorted-options", &ri)
+		}
+	}
+	// large values (several KiB): code that treats big inputs differently — a pooled buffer above a
+	// size threshold, a chunked path — is only reached by these
+	signedTweak = func(model any) {
+		switch m := model.(type) {
+		case *rm.EncryptedLeaseSet:
+			m.Inner = r.Bytes(5000 + r.Pick(3000))
+		case *rm.LeaseSet2:
+			m.Options = gen.Corners(core.NewRand(2, "c18-big"))[1].Model.(rm.Mapping)
+			for len(m.Leases) < 16 {
+				m.Leases = append(m.Leases, gen.Lease2(r))
+			}
+		case *rm.RouterInfo:
+			for len(m.Addrs) < 40 {
+				m.Addrs = append(m.Addrs, am)
+			}
+		}
+	}
+	bigE, bigL, bigR := signedELS(r, 7, false, 7), signedLeaseSet2(r, 7, false, 7), signedRouterInfo(r, 7)
+	signedTweak = nil
+	if ls, _, err := encrypted_leaseset.ReadEncryptedLeaseSet(bigE.bytes); err == nil {
+		ls := ls
+		add("EncryptedLeaseSet/large", &ls, func() string { return fmt.Sprint(ls.Verify() == nil) })
+	}
+	if ls, _, err := lease_set2.ReadLeaseSet2(bigL.bytes); err == nil {
+		ls := ls
+		add("LeaseSet2/large", &ls, func() string { return fmt.Sprint(ls.Verify() == nil) })
+	}
+	if ri, _, err := router_info.ReadRouterInfo(bigR.bytes); err == nil {
+		ri := ri
+		add("RouterInfo/large", &ri)
+	}
 	l2, _ := gen.LeaseSet2(r)
 	l2.Dest, _ = identWithKey(r, key, rm.IdentCryptoTypes)
 	l2.Offline, l2.Flags = nil, 0
